@@ -151,16 +151,20 @@ class _Track(object):
             self.seen |= set(op[1] or [])
 
 
-def _pick_layer(rng, tr):
+def _pick_layer(rng, tr, nonempty=False):
     names = sorted(tr.layers)
     if rng.random() < 0.03:
         return "nolayer"
+    if nonempty:
+        full = [n for n in names if tr.layers[n]]
+        if full and rng.random() < 0.85:
+            return rng.choice(full)
     return rng.choice(names)
 
 
 def _gen_op(rng, tr, pool, origin):
     r = rng.random()
-    L = _pick_layer(rng, tr)
+    L = _pick_layer(rng, tr, nonempty=(0.32 <= r < 0.82))
     here = sorted(tr.layers.get(L, ()))
     elsewhere = sorted(tr.union() - set(here))
     stale = sorted(tr.seen - tr.union())           # mentioned (e.g. in the order) but in no layer
@@ -269,7 +273,7 @@ def gen_case(rng, maxlen):
 
 
 def generate(rng, tier):
-    n, maxlen = (700, 14) if tier == "quick" else (12000, 40)
+    n, maxlen = (2500, 16) if tier == "quick" else (40000, 40)
     for _ in range(n):
         yield gen_case(rng, maxlen)
 
